@@ -69,6 +69,11 @@ Shape(s, fs) ==
           <<6, IF "service" \in fs THEN <<Node(<< <<2, Leaves(2)>> >>)>> ELSE <<>> >>,
           <<7, Leaves(2 * N("extend" \in fs) + N("extgroup" \in fs) + 4 * N("customopt" \in fs) + N("srcret" \in fs))>> >>)
 
+(* hand-written linkable skeletons of LayoutSkel (text in harness/srcinfo/layout.go):
+     t1   import "dep.proto"; message A { f, d }; enum E { 1 value }; two file options last *)
+LocalSkels == {"t1"}
+LocalShape(id) == Node(<< <<3, Leaves(1)>>, <<4, <<MsgWithFields(2)>> >>, <<5, <<EnumWith(1, 0, 0)>> >> >>)
+
 (* custom options: <<extendee options message, number, type, repeated>> *)
 Exts(fs) ==
   IF "customopt" \notin fs THEN {}
